@@ -18,16 +18,17 @@ import (
 // C17 — concurrent use is free of data races and deadlocks.
 
 type c17World struct {
-	fresh     int
-	discReply model.DatagramType // built during set-up (building it reads the writer of the connection)
-	w         *world.World
-	a, b      *world.Peer
-	srv       api.FeatureLocalInterface
-	cli       api.FeatureLocalInterface
-	diag      api.EntityLocalInterface
-	pending   []*api.Message
-	extra     *spine.EntityLocal
-	reqCtr    uint64 // counter of a request of the local client feature that peer A has not answered yet
+	fresh      int
+	discReply  model.DatagramType // built during set-up (building it reads the writer of the connection)
+	notifyCtrs []uint64
+	w          *world.World
+	a, b       *world.Peer
+	srv        api.FeatureLocalInterface
+	cli        api.FeatureLocalInterface
+	diag       api.EntityLocalInterface
+	pending    []*api.Message
+	extra      *spine.EntityLocal
+	reqCtr     uint64 // counter of a request of the local client feature that peer A has not answered yet
 }
 
 //go:norace
@@ -58,6 +59,15 @@ func newC17World() *c17World {
 	c := &c17World{w: stdWorld(false, "A", "B")}
 	c.fresh = c17NextFresh()
 	defer func() {
+		// two more notifications to A, and the counters of all notifications A got
+		c.srv.SetData(fnLimit, limitList(2, 1, 2))
+		c.srv.SetData(fnLimit, limitList(1, 1, 2))
+		rt.WaitIdle()
+		for _, d := range c.a.W.Datagrams(0) {
+			if d.Header.CmdClassifier != nil && *d.Header.CmdClassifier == model.CmdClassifierTypeNotify && d.Header.MsgCounter != nil {
+				c.notifyCtrs = append(c.notifyCtrs, uint64(*d.Header.MsgCounter))
+			}
+		}
 		c.discReply = c.a.DiscoveryReply([]world.EntSpec{withVendorFeature(clientEntity([]uint{1}), "R", c.fresh), clientEntity([]uint{2})})
 	}()
 	c.a, c.b = c.w.Peers["A"], c.w.Peers["B"]
@@ -245,8 +255,11 @@ func c17Ops() []c17Op {
 		}},
 		{"local:RemoveRemoteDeviceConnection(B)", func(c *c17World) { c.w.L.RemoveRemoteDeviceConnection("B") }},
 		{"local:DatagramForMsgCounter", func(c *c17World) {
+			// counters of notifications that are in the cache (sent to A during set-up), and one that is not
+			for _, k := range c.notifyCtrs {
+				_, _ = c.a.Dev.Sender().DatagramForMsgCounter(model.MsgCounterType(k))
+			}
 			_, _ = c.a.Dev.Sender().DatagramForMsgCounter(3)
-			_, _ = c.a.Dev.Sender().DatagramForMsgCounter(4)
 		}},
 		{"local:readers", func(c *c17World) {
 			devs := c.w.L.RemoteDevices()
